@@ -812,3 +812,13 @@ def _(E, m, a, c0):
     x, y = E.deref(a[0]), E.deref(a[1])
     k = E.choose([z3.And(z3.Not(x), y), x == y, z3.And(x, z3.Not(y))]); o = ordering(k)
     return o if m.group(2) == 'cmp' else opt(o)
+
+@pattern(r'<Box<.*> as Drop>::drop|<Vec<.*> as Drop>::drop|<(std::rc::)?Rc<.*> as Drop>::drop_placeholder')
+def _(E, m, a, c0): return UNIT       # deallocation only: the contents were moved out / are dropped by the explicit drop terminators
+@pattern(r'<f64 as Signed>::(abs|is_positive|is_negative|signum)')
+def _(E, m, a, c0):
+    x = E.deref(a[0]); op = m.group(1)
+    if op == 'abs': return F64(z3.If(x.kind == 2, 1, x.kind), z3.If(x.val < 0, -x.val, x.val), z3.BoolVal(False))
+    if op == 'is_positive': return z3.Or(x.kind == 1, z3.And(x.kind == 3, z3.Not(x.signbit())))
+    if op == 'is_negative': return z3.Or(x.kind == 2, z3.And(x.kind == 3, x.signbit()))
+    return E.fop('signum', x)
